@@ -99,6 +99,18 @@ def check_pair(ctx, P, t, a, base=None):
                   lambda: {'parse(P)': [m.hex() for m in base], 'parse(P+M)': [m.hex() for m in full],
                            'M': M.hex()})
         ctx.check('fresh objects', len({id(m) for m in full}) == len(full), 'aliased', case, None)
+        # byte by byte, retrieving after every byte (what SocketPort does)
+        p = Parser()
+        one = []
+        for b in list(P) + enc:
+            p.feed_byte(b)
+            while True:
+                m = p.get_message()
+                if m is None:
+                    break
+                one.append(m)
+        ctx.check('parse(P+enc(M)) == parse(P)+[M]', one == base + [M] and p.pending() == 0, 'feed_byte:' + t, case,
+                  lambda: {'got': [m.hex() for m in one], 'want': [m.hex() for m in base] + [M.hex()]})
         # the prefix and the message arrive in separate feed() calls (bytes and list chunks)
         for cont in (bytes, list):
             p = Parser()
